@@ -377,12 +377,12 @@ theorem finishDestruct_def (c : Core) (ob : Nat) :
       (let c2 := removeHash (unlinkC c ob) ob
        let c3 : Core := { c2 with ol := c2.ol.erase ob }
        let c4 := removeLiving c3 ob
-       let c5 := setObj c4 ob { c4.objs ob with ec := false, super := none, contains := [], destructed := true }
+       let c5 := setObj c4 ob { c4.objs ob with ec := false, super := none, contains := [], destructed := true, sent := [] }
        { c5 with dl := ob :: c5.dl }) := rfl
 
 /-- what is left of a destructed object -/
 def deadObj (o : Obj) : Obj :=
-  { o with ec := false, super := none, contains := [], destructed := true, living := none }
+  { o with ec := false, super := none, contains := [], destructed := true, living := none, sent := [] }
 
 /-- the state after the unlink block of destruct_object, in closed form (`c1` = state after leaving the environment) -/
 def destroyed (c1 : Core) (ob : Nat) (h : Nat) (ln : Option String) : Core :=
